@@ -234,6 +234,60 @@ JParseTrajectory(e, st) ==
   IN  WithDevs(adm, "ParseTrajectory", st)
 
 ----------------------------------------------------------------------------
+(* exporters (C08, C09): the exported text is read by the independent reader *)
+(* and then by the specification itself; it must denote the same vocabulary  *)
+(* and the same behaviour / the same problem as the source.                  *)
+
+NamesOf(D, u) == DOMAIN u.objs \cup {D.consts[i][1] : i \in DOMAIN D.consts}
+TypeOfArg(D, u, n) == IF n \in DOMAIN u.objs THEN u.objs[n] ELSE TypeOfName(D, u.objs, n)
+CallsOf(D, u, a) ==
+  {args \in [DOMAIN a.params -> NamesOf(D, u)] :
+      \A i \in DOMAIN a.params : SubType(u.parent, TypeOfArg(D, u, args[i]), a.params[i][2])}
+
+\* calls: <<>> = every type-correct call over the universe; otherwise the listed
+\* [act, args] pairs (large fixture universes)
+SameBehaviour(D, D2, u, states, calls) ==
+  \A i \in DOMAIN D.actions :
+    LET a == D.actions[i] IN
+    /\ HasAction(D2, a.name)
+    /\ LET a2 == ActionNamed(D2, a.name) IN
+       /\ a2.params = a.params
+       /\ \A args \in (IF calls = <<>> THEN CallsOf(D, u, a)
+                        ELSE {c[2] : c \in {x \in Range(calls) : x[1] = a.name /\ Len(x[2]) = Len(a.params)}}) : \A s \in states :
+             LET env == EnvOfCall(a, args)
+                 r1 == Succ(a.eff, env, s, u, Eps, {})
+                 r2 == Succ(a2.eff, env, s, u, Eps, {})
+             IN  /\ Holds3(a.pre, env, s, u, Eps, {}) = Holds3(a2.pre, env, s, u, Eps, {})
+                 /\ r1.ok = r2.ok
+                 /\ (r1.ok => StEq(r1.st, r2.st))
+
+VocabSame(v1, v2) ==
+  /\ v1.name = v2.name /\ v1.types = v2.types /\ v1.consts = v2.consts
+  /\ v1.preds = v2.preds /\ v1.funcs = v2.funcs /\ v1.actions = v2.actions
+
+JExportDomain(e, st) ==
+  IF Has(e.out, "exc") THEN Fail("ExportDomain:" \o e.out.exc, st)
+  ELSE LET D == st[e.d].D
+           D2 == DomainOfTree(e.out.tree)
+           s2 == Put(st, e.h, [kind |-> "domain", D |-> D2, digest |-> e.out.digest2])
+           states == {st[h].st : h \in Range(e.states)}
+       IN  IF ~VocabSame(VocabOf(D2), VocabOf(D)) THEN Fail("ExportDomain:text-vocabulary", s2)
+           ELSE IF Has(e.out, "exc2") THEN Fail("ExportDomain:reparse-rejected", s2)
+           ELSE IF ~VocabSame(VocabOfJson(e.out.vocab2), VocabOf(D)) THEN Fail("ExportDomain:reparsed-vocabulary", s2)
+           ELSE IF ~SameBehaviour(D, D2, st[e.u].u, states, IF Has(e, "calls") THEN e.calls ELSE <<>>)
+                THEN Fail("ExportDomain:text-behaviour", s2)
+           ELSE Ok(s2)
+
+JExportProblem(e, st) ==
+  IF Has(e.out, "exc") THEN Fail("ExportProblem:" \o e.out.exc, st)
+  ELSE LET P == st[e.p].P
+           P2 == ProblemOfTree(e.out.tree)
+           same(a, b) == ProjEq(ProblemProj(a), ProblemProj(b)) /\ a.domain = b.domain
+       IN  IF ~(P2.ok /\ P2.init.shapeOk /\ ~P2.init.conflict /\ same(P, P2)) THEN Fail("ExportProblem:text", st)
+           ELSE IF Has(e.out, "exc2") THEN Fail("ExportProblem:reparse-rejected", st)
+           ELSE Ok(st)
+
+----------------------------------------------------------------------------
 (* states as values, operators as objects *)
 
 JCopyState(e, st) ==
@@ -283,6 +337,8 @@ Judge(e, st) ==
     [] e.c = "RunPlan"      -> JRunPlan(e, st)
     [] e.c = "ExportTrajectory" -> JExportTrajectory(e, st)
     [] e.c = "ParseTrajectory"  -> JParseTrajectory(e, st)
+    [] e.c = "ExportDomain" -> JExportDomain(e, st)
+    [] e.c = "ExportProblem" -> JExportProblem(e, st)
     [] e.c = "CopyState"    -> JCopyState(e, st)
     [] e.c = "StateEq"      -> JStateEq(e, st)
     [] e.c = "NewOperator"  -> JNewOperator(e, st)
